@@ -18,7 +18,11 @@ theorem Same.of_proj {w w' : W} (h : proj w' = proj w) (h1 : w'.inError = w.inEr
 
 theorem BlockOK.of_quiet : ∀ (es : List Ev), (∀ e ∈ es, quiet e = true) → BlockOK es := by
   intro es h
-  refine ⟨?_, ?_, ?_⟩
+  refine ⟨?_, ?_, ?_, ?_⟩
+  rotate_left 3
+  · intro e he
+    have := h e he
+    cases e <;> first | rfl | (simp [quiet] at this)
   · intro e he
     have := h e he
     cases e <;> first | rfl | (simp [quiet] at this)
@@ -232,7 +236,17 @@ theorem raise_step (w : W) (who : String) :
       · exact hq e h
       · simp at h; rw [h]; rfl
     have b1 := BlockOK.of_quiet _ hqq
-    refine ⟨?_, ?_, ?_⟩
+    refine ⟨?_, ?_, ?_, ?_⟩
+    rotate_left 3
+    · intro e he
+      have : e ∈ (es ++ [Ev.meh false s!"boom {who}"]) ∨ e = Ev.xErr who := by
+        simp at he ⊢; rcases he with h | h | h
+        · exact Or.inl (Or.inl h)
+        · exact Or.inl (Or.inr h)
+        · exact Or.inr h
+      rcases this with h | h
+      · exact b1.noCycle e h
+      · rw [h]; rfl
     · intro e he
       have : e ∈ (es ++ [Ev.meh false s!"boom {who}"]) ∨ e = Ev.xErr who := by
         simp at he ⊢; rcases he with h | h | h
